@@ -129,21 +129,23 @@ def run(ctx):
                     if og[0] == "call" and callee(og[2]).endswith("DatagramFrame::new") and og[2]["args"] and const_int(og[2]["args"][0]) == 1:
                         with_len.append(d)
         with_len = sorted(set(with_len))
-        limit_cmp = []
+        limit_cmp = []   # (bool local, truth value under which the frame fits)
         for (i, j, p, rv, line) in lb.assigns():
             if rv[0] == "bin" and rv[1] in ("Gt", "Ge", "Lt", "Le") and len(p) == 1:
-                roles = value_roles(lb, rv[2]) | value_roles(lb, rv[3])
-                if any(re.search(r"field:\w*Writer\.max", r) for r in roles):
-                    for sbk in lb.live_blocks():
-                        tt = lb.term(sbk)
-                        if tt["t"] == "switch" and op_place(tt["on"]) == p:
-                            limit_cmp.append(sbk)
-        cond_b = bool(with_len) and all(any(lb.dominates(c, d) and c != d for c in limit_cmp) for d in with_len)
+                ra, rb_ = value_roles(lb, rv[2]), value_roles(lb, rv[3])
+                la = any(re.search(r"field:\w*Writer\.max", r) for r in ra)
+                lb2 = any(re.search(r"field:\w*Writer\.max", r) for r in rb_)
+                if la == lb2:
+                    continue
+                # normalise to  SIZE op LIMIT
+                op = rv[1] if lb2 else {"Gt": "Lt", "Ge": "Le", "Lt": "Gt", "Le": "Ge"}[rv[1]]
+                limit_cmp.append((p[0], op in ("Le", "Lt"), line))
+        cond_b = bool(with_len) and all(any(runs_only_when(lb, l, fits, d) for (l, fits, _) in limit_cmp) for d in with_len)
         ctx.floor("R5", "with-length dump sites in the loader", len(with_len), 1)
         ctx.ob("R5", "%s|an admitted datagram is never encoded larger than the peer's limit" % lb.short, cond_a or cond_b, lb.where(),
-               "admission comparisons %s (measure an encoded size: %s); with-length dumps at %s, comparisons with the peer's limit at %s "
+               "admission comparisons %s (measure an encoded size: %s); with-length dumps at %s, comparisons with the peer's limit at lines %s "
                "(every with-length dump guarded: %s) — admission bounds only the shortest form (1 + len), so unless the loader "
                "checks the limit before adding the length varint an admitted datagram leaves as a frame of limit+1/+2 bytes and "
-               "the peer answers PROTOCOL_VIOLATION" % (adm, cond_a, with_len, limit_cmp, cond_b))
+               "the peer answers PROTOCOL_VIOLATION" % (adm, cond_a, with_len, [x[2] for x in limit_cmp], cond_b))
     ctx.note("R3/R4: the sender admits 1 + len <= limit but may then encode a length varint; the receiver measures "
              "encoding_size() + len: boundary sizes accepted by the sender can be rejected by an identical peer (recorded as a note)")
